@@ -57,9 +57,10 @@ def make_classes():
         """decision_function = one integer feature column; which column depends on the rows the
         estimator was fitted on (so that a mis-routed row gets a visibly different score)"""
 
-        def __init__(self, mode="decision", learn=True):
+        def __init__(self, mode="decision", learn=True, kind="col"):
             self.mode = mode
             self.learn = learn
+            self.kind = kind      # col: a feature column; neg: its negation; const: constant
 
         def fit(self, X, y):
             ids = [int(v) for v in X[:, 0]]
@@ -70,7 +71,10 @@ def make_classes():
             return self
 
         def _score(self, X):
-            return np.asarray(X[:, self.col_], dtype=float)
+            if self.kind == "const":
+                return np.zeros(X.shape[0])
+            s = np.asarray(X[:, self.col_], dtype=float)
+            return -s if self.kind == "neg" else s
 
         def __getattr__(self, name):
             # expose decision_function only in "decision" mode (mokapot probes with AttributeError)
@@ -207,7 +211,8 @@ def run_brew(case, keep_dir=None):
             dss = mokapot.read_pin(paths, max_workers=1)
             keys = [spectrum_keys(ds) for ds in dss]
             reset_log()
-            est = Transparent(mode=case.get("est_mode", "decision"), learn=case.get("learn", True))
+            est = Transparent(mode=case.get("est_mode", "decision"), learn=case.get("learn", True),
+                              kind=case.get("est_kind", "col"))
             model = Model(est, scaler=RecScaler(), train_fdr=case.get("train_fdr", 1.0),
                           max_iter=case.get("max_iter", 1), override=case.get("override", True),
                           rng=case["seed"])
@@ -235,6 +240,8 @@ def run_brew(case, keep_dir=None):
             "descs": [bool(x) for x in descs],
             "feat_pass": [int(m.feat_pass) if m.feat_pass is not None else None for m in models],
             "best_feat": [m.best_feat if isinstance(m.best_feat, str) else None for m in models],
+            "model_desc": [None if m.desc is None else bool(m.desc) for m in models],
+            "override": [bool(m.override) for m in models],
         }
         return obs
     finally:
